@@ -382,6 +382,44 @@ func checkC12(p *core.Program, r *core.Report) {
 		}
 	}
 	r.Floor(R3, 2)
+
+	// R4: a writer blocked in the enqueue select holds its locks; the close routine must be able to
+	// reach close(escape channel) without acquiring any of them
+	const R4 = "C12.R4 escape-not-behind-writer-lock"
+	const R5 = "C12.R5 transport-writes-serialised"
+	r.Rule(R4, "no lock held by a writer blocked in the enqueue select is acquired on any path from an entry to the close() of its escape channel")
+	r.Rule(R5, "every gorilla write call (Conn.WriteMessage/WriteControl/NextWriter/WriteJSON) holds one common mutex: gorilla allows one concurrent writer and panics otherwise")
+	li := checkEscapeLocks(p, r, a, uses, closedByRoutine, R4, tn)
+	r.Floor(R4, 1)
+	var common core.LockSet
+	nw := 0
+	for _, fn := range a.fns {
+		core.EachInstr(fn, func(in ssa.Instruction) {
+			switch core.CalleeName(core.Common(in)) {
+			case "(*github.com/gorilla/websocket.Conn).WriteMessage", "(*github.com/gorilla/websocket.Conn).WriteControl",
+				"(*github.com/gorilla/websocket.Conn).NextWriter", "(*github.com/gorilla/websocket.Conn).WriteJSON", "(*github.com/gorilla/websocket.Conn).WritePreparedMessage":
+			default:
+				return
+			}
+			nw++
+			ls := li.Must[in]
+			key := "transport write in " + p.FnName(fn)
+			if len(ls) == 0 {
+				r.Fail(R5, key, p.Pos(in.Pos()), "a websocket write is made without holding the write mutex: the pump's frame write and a close frame / ping written from another goroutine can run concurrently (gorilla panics: concurrent write to websocket connection)")
+			} else {
+				r.OK(R5, key, p.Pos(in.Pos()), "holds "+ls.String())
+			}
+			if common == nil {
+				common = ls.Clone()
+			} else {
+				common = common.Intersect(ls)
+			}
+		})
+	}
+	if nw > 1 && len(common) == 0 {
+		r.Fail(R5, "transport writes common mutex", "", "the websocket write sites do not share a mutex")
+	}
+	r.Floor(R5, 1)
 }
 
 // selectNilReturnOffArm finds a nil-error return reachable from the select
@@ -700,6 +738,16 @@ func checkC13(p *core.Program, r *core.Report) {
 	checkClosedQuery(p, r, a, R2, tn)
 	r.Floor(R2, 6)
 
+	// ---- R5 close routine reachable while a writer is blocked
+	const R5 = "C13.R5 close-not-behind-blocked-writer"
+	r.Rule(R5, "the close routine reaches close(stop channel) without acquiring a lock that a goroutine blocked on that channel holds (else error report, pump exit and socket close never happen)")
+	closedByRoutine := map[*types.Var]bool{}
+	for f := range stopChans {
+		closedByRoutine[f] = true
+	}
+	checkEscapeLocks(p, r, a, uses, closedByRoutine, R5, tn)
+	r.Floor(R5, 1)
+
 	// ---- R3 pumps can exit
 	npump := 0
 	for _, fn := range a.fns {
@@ -813,8 +861,16 @@ func checkWriteFailureReported(p *core.Program, r *core.Report, a *wsAnchors, ru
 				key := tn + " write-error@" + p.FnName(fn) + " reported"
 				first := eb.Instrs[0]
 				bad := ssa.Instruction(nil)
+				closedEdge := func(b *ssa.BasicBlock, idx int) bool {
+					i := core.BlockIf(b)
+					if i == nil {
+						return false
+					}
+					v, truth := core.Truth(i.Cond, idx)
+					return truth && a.flagRead(v) // the connection was closed meanwhile: nothing to report
+				}
 				if !mustRep.Instr(first) {
-					bad = core.PathSearch(fn, first, core.IsReturn, mustRep.Instr, nil)
+					bad = core.PathSearch(fn, first, core.IsReturn, mustRep.Instr, closedEdge)
 					if core.IsReturn(first) {
 						bad = first
 					}
@@ -823,6 +879,13 @@ func checkWriteFailureReported(p *core.Program, r *core.Report, a *wsAnchors, ru
 					r.Fail(rule, key, p.Pos(first.Pos()), "a failed transport write is not reported to the SHIP layer (ReportConnectionError) on every path")
 				} else {
 					r.OK(rule, key, p.Pos(first.Pos()), "write failure reaches ReportConnectionError")
+				}
+				// a write that fails because the connection was closed locally must not be reported
+				key2 := tn + " write-error@" + p.FnName(fn) + " not-reported-after-local-close"
+				if unchecked := core.PathSearch(fn, call, mustRep.Instr, a.isFlagCheckInstr, nil); unchecked != nil {
+					r.Fail(rule, key2, p.Pos(unchecked.Pos()), "the write error is reported without re-reading the closed flag after the write: a deliberate local close racing the pump's write is reported as a connection error")
+				} else {
+					r.OK(rule, key2, p.Pos(first.Pos()), "closed flag re-read between the failed write and the report")
 				}
 			}
 		})
@@ -908,4 +971,40 @@ func checkClosedQuery(p *core.Program, r *core.Report, a *wsAnchors, rule, tn st
 	} else {
 		r.OK(rule, key, pos, "every path that may return closed returns a non-nil error")
 	}
+}
+
+// checkEscapeLocks: a goroutine blocked in a select on an escape channel
+// keeps its locks; the close routine must reach close(escape) without
+// acquiring any of them. Shared by C12.R4 and C13.R5.
+func checkEscapeLocks(p *core.Program, r *core.Report, a *wsAnchors, uses map[*types.Var][]chanUse, closedByRoutine map[*types.Var]bool, R4, tn string) *core.LockInfo {
+	li := core.AnalyzeLocks(a.fns, func(fn *ssa.Function) bool {
+		return fn.Object() != nil && fn.Object().Exported()
+	})
+	for f, us := range uses {
+		for _, s := range us {
+			if s.kind != "send" || s.sel == nil {
+				continue
+			}
+			held := li.Must[s.in]
+			for _, st := range s.sel.States {
+				g := chanField(st.Chan)
+				if st.Dir != types.RecvOnly || g == nil || !closedByRoutine[g] {
+					continue
+				}
+				for _, c := range uses[g] {
+					if c.kind != "close" {
+						continue
+					}
+					key := fmt.Sprintf("%s.%s send@%s escape %s closed@%s", tn, f.Name(), p.FnName(s.fn), g.Name(), p.FnName(c.fn))
+					conflict := held.Intersect(li.AcqBefore[c.in])
+					if len(conflict) > 0 {
+						r.Fail(R4, key, p.Pos(c.in.Pos()), fmt.Sprintf("the writer waits in its select holding %s, and the close routine acquires %s before it closes %s: with a full queue and a stalled pump both wait for each other forever", held, conflict, g.Name()))
+					} else {
+						r.OK(R4, key, p.Pos(c.in.Pos()), fmt.Sprintf("writer holds %s; path to close(%s) acquires only %s", held, g.Name(), li.AcqBefore[c.in]))
+					}
+				}
+			}
+		}
+	}
+	return li
 }
